@@ -65,6 +65,14 @@ let model _ l = match words l with
     let b = M.ser_tx (aw = "1") t in
     hex_of_bytes b ^ " " ^ res_tx (aw = "1") (M.unser_tx (aw = "1") b)
   | ["dtx"; aw; h] -> res_tx (aw = "1") (M.unser_tx (aw = "1") (bytes_of_hex h))
+  | ["dblock"; aw; h] ->
+    (match M.unser_block (aw = "1") (bytes_of_hex h) with
+     | M.Ok (b, rest) ->
+       let hd = b.M.b_header in
+       Printf.sprintf "ok %s %s %s %s %s %s %d %s %s" (string_of_z hd.M.h_version) (hex_of_bytes hd.M.h_prev) (hex_of_bytes hd.M.h_merkle)
+         (string_of_z hd.M.h_time) (string_of_z hd.M.h_bits) (string_of_z hd.M.h_nonce) (List.length b.M.b_vtx) (len rest)
+         (hex_of_bytes (M.ser_block (aw = "1") b))
+     | M.Err e -> "err " ^ err_s e)
   | ["hex"; h] -> let s = M.hex_str (bytes_of_hex h) in hex_of_bytes s ^ " " ^ opt_bytes (M.try_parse_hex s)
   | ["dhex"; s] -> opt_bytes (M.try_parse_hex (bytes_of_hex s))
   | ["b64"; h] ->
@@ -116,7 +124,7 @@ let holds args c impl =
          if List.length r = n + 2 && fst (take n r) = expect && List.nth r n = "0" then "ok"
          else "fail transaction does not round trip"
        | _ -> "fail transaction not read back")
-  | ["dtx"; aw; h] ->
+  | ["dblock"; aw; h] | ["dtx"; aw; h] ->
     (* canonical: the re-serialisation of what was accepted is the consumed prefix of the input *)
     (match words impl with
      | "ok" :: r ->
